@@ -52,6 +52,8 @@ type Rule struct {
 	Rhs  []string `json:"rhs"`
 	Prec string   `json:"prec"` // explicit %prec symbol, "" = none
 	Act  Act      `json:"act"`
+	// RawAct, when set, is the action text as is (text-level experiments; such files are not built)
+	RawAct string `json:"rawact,omitempty"`
 }
 
 type Case struct {
